@@ -94,6 +94,18 @@ class _Mixin:
             self.broker.markets.default.add_liquidity_by_tick(199900, 200100, prm["base"], prm["quote"])
         if self.kind == "trader" and snapshot.row_id == 1 and prm["active"]:
             self.broker.markets.default.buy(prm["base"])
+        if self.kind in ("opt_capped_seller", "opt_plain_seller") and snapshot.row_id == 0 and prm["active"]:
+            # buys a holding and sells part of it back in the same bar, with / without the mark-price cap: the sale walks the BID lists
+            dm = [m for m in self.broker.markets.values() if type(m).__name__ == "DeribitOptionMarket"][0]
+            dm.deposit(D(400))
+            try:
+                dm.buy(OPT, prm["contracts"])
+                if self.kind == "opt_capped_seller":
+                    dm.sell(OPT, prm["contracts"], max_mark_price_multiple=D("1.2"))
+                else:
+                    dm.sell(OPT, prm["contracts"])
+            except Exception as e:
+                self.rejected = type(e).__name__
         if self.kind in ("opt_capped", "opt_plain") and snapshot.row_id == 0 and prm["active"]:
             dm = [m for m in self.broker.markets.values() if type(m).__name__ == "DeribitOptionMarket"][0]
             dm.deposit(D(400))
@@ -259,8 +271,8 @@ def scenarios(tier):
     if tier != "quick":
         orders += [("lp", "trader", "idle"), ("trader", "trader"), ("lp", "lp"), ("idle", "trader", "lp")]
     der_shadows = tuple(dict.fromkeys(SHADOWS + ("demeter.deribit.market", "demeter.deribit.helper", "demeter.deribit._typing")))
-    for ks in (("opt_capped", "opt_plain"), ("opt_plain", "opt_capped")):
-        out.append(Scenario("isolation/deribit/" + "+".join(ks), isolation, params=dict(kinds=ks, deribit=True), entry=("BacktestManager.run", "_start", "DeribitOptionMarket.buy"), **dict(kw, shadows=der_shadows)))
+    for ks in (("opt_capped", "opt_plain"), ("opt_plain", "opt_capped"), ("opt_capped_seller", "opt_plain_seller"), ("opt_plain_seller", "opt_capped_seller")):
+        out.append(Scenario("isolation/deribit/" + "+".join(ks), isolation, params=dict(kinds=ks, deribit=True), entry=("BacktestManager.run", "_start", "DeribitOptionMarket.buy", "DeribitOptionMarket.sell"), **dict(kw, shadows=der_shadows)))
     for ks in orders:
         out.append(Scenario("isolation/" + "+".join(ks), isolation, params=dict(kinds=ks, forked=len(ks) == 3), entry=("BacktestManager.run", "_start", "Broker.add_market", "Actuator.run"), canary="CANARY no strategy ever trades", **kw))
     return out
